@@ -493,12 +493,12 @@ def judge(res, obs, driver_reqs):
             n_cum += 1
             res.oracle_failure("slow-path-cumulative-lines", w2,
                                "shortcut note (per-commit lines) differs under ≈ from the replayed note (cumulative lines)")
-        elif pf and ps and k < len(obs["ghost"]) and misattribution_family(pf, ps, obs, k, cum_k, head_cum):
-            n_mis += 1
-            res.oracle_failure("slow-path-misattributes-lines-rewritten-later", w2,
-                               "the replayed note takes the session of a line that a later commit of the range rewrote or "
-                               "deleted from the original head state; the shortcut's note is the correct per-commit note")
         else:
+            # (the family "replay credits a line that a later commit of the range rewrote" was repaired in /repo by
+            #  3d512cdb + 5c3b3e4a; it is no longer classified, so a return is reported as a violation)
+            if pf and ps and k < len(obs["ghost"]) and misattribution_family(pf, ps, obs, k, cum_k, head_cum):
+                n_mis += 1
+                why += " [shape of the repaired finding slow-path-misattributes-lines-rewritten-later]"
             res.oracle_failure("shortcut-differs-from-replay", dict(w2, why=why),
                                "the shortcut's note is not ≈ to the replayed note, and not in the cumulative-lines family: " + why)
     tags.append(f"e2e:notes={'misattributed-diff' if n_mis else ('all-equiv' if n_cum == 0 else 'cumulative-diff')}")
@@ -511,13 +511,9 @@ def judge(res, obs, driver_reqs):
             w3 = dict(wit, file=fk, fast_blame=bf, slow_blame=bs)
             # the range rewrote an AI line of this file later; the shortcut's blame is the ghost truth from commit k on
             later = set().union(*[rewritten_later(obs["ghost"], j) for j in range(min(k + 1, len(obs["ghost"])))]) if obs["ghost"] else set()
-            if took and k < len(obs["ghost"]) and f in later and {int(a): b for a, b in bf.items()} == ghost_blame(obs["ghost"], k, f):
-                res.oracle_failure("slow-path-misattributes-lines-rewritten-later", w3,
-                                   "blame through the replayed notes credits the wrong session for a line that a later commit of "
-                                   "the range rewrote; blame through the shortcut's notes is correct")
-            else:
-                res.oracle_failure("shortcut-blame-differs", w3,
-                                   "git-ai blame differs between the shortcut's notes and the replayed notes")
+            shape = took and k < len(obs["ghost"]) and f in later and {int(a): b for a, b in bf.items()} == ghost_blame(obs["ghost"], k, f)
+            res.oracle_failure("shortcut-blame-differs", dict(w3, repaired_family_shape=bool(shape)),
+                               "git-ai blame differs between the shortcut's notes and the replayed notes")
             break
     tags.append(f"e2e:blame={'same' if bl_same else 'differs'}")
     # ghost check of what both twins say (statistic; C02's concern)
